@@ -533,6 +533,11 @@ func classifyReimport(orig, re *sysl.Module) map[string]string {
 			case d.kind == "len" && n >= 4 && d.path[n-1] == "elt" && d.path[n-2] == "a" && strings.HasPrefix(d.path[n-3], "[") && d.path[n-4] == "attrs" &&
 				len(d.path) > 2 && d.path[1] == "endpoints" && d.path[2] != "["+collectorName+"]" && a.Endpoints[collectorName] != nil && onlyRepeats(d.a.List(), d.b.List()):
 				keys["reimport:collector-array-attr"] = fmt.Sprintf("%s: %d elements became %d (collector attributes appended again)", p, d.a.List().Len(), d.b.List().Len())
+			case d.kind == "len" && n >= 6 && d.path[n-1] == "elt" && d.path[n-2] == "a" && strings.HasPrefix(d.path[n-3], "[") && d.path[n-4] == "attrs" &&
+				d.path[1] == "endpoints" && d.path[2] == "["+collectorName+"]" && d.path[3] == "stmt" && onlyRepeats(d.a.List(), d.b.List()):
+				// the same append, seen through Go's pointer sharing: a target that holds the collector statement's own
+				// attribute object (dst[k] = v) is appended to by a later collector statement
+				keys["reimport:collector-array-attr:own-statement"] = fmt.Sprintf("%s: %d elements became %d (a collector statement's own attribute, shared with its target, grew again)", p, d.a.List().Len(), d.b.List().Len())
 			case d.kind == "+" && n == 3 && (d.path[1] == "types" || d.path[1] == "views") && hasMixinChain(orig, k):
 				keys["reimport:mixin-chain"] = fmt.Sprintf("%s appears only after re-import (mixin of a mixin)", p)
 			default:
@@ -1038,6 +1043,7 @@ type runner struct {
 	post   *common.Cases
 	re     *srcRegex
 	nJSONCoq int
+	cleanBytes int
 	rot      int
 	allImports bool // re-import through every encoding (thorough, regression, replay); otherwise .pb and one other in rotation
 }
@@ -1112,9 +1118,18 @@ func (rn *runner) jsonCase(m proto.Message, base replay) {
 	if err != nil {
 		return
 	}
+	if len(raw) > 12000 { // a Coq string literal of this length is a term that deep: keep clear of coqc's stack limit
+		rn.c.Hist("json-to-coq:skipped-too-large")
+		return
+	}
 	var w bytes.Buffer
 	if err := pbutil.FJSONPBWithOpt(&w, m, pbutil.OutputOptions{}); err != nil {
 		return
+	}
+	rn.cleanBytes += 3 * len(raw)
+	if rn.cleanBytes > 300000 {
+		rn.clean.Close() // next Add opens a new shard
+		rn.cleanBytes = 0
 	}
 	rp := base
 	rp.Enc = "json"
@@ -1255,7 +1270,7 @@ Definition A := @Build_app attr. Definition E := @Build_endpoint attr.`
 
 	scale := 1
 	if c.Thorough() {
-		scale = 8
+		scale = 6
 	}
 	if c.Search {
 		scale *= 3
@@ -1341,7 +1356,7 @@ Definition A := @Build_app attr. Definition E := @Build_endpoint attr.`
 		if done%6 == 0 {
 			s := proto.Clone(m).(*sysl.Module)
 			stripCtx(s.ProtoReflect())
-			if proto.Size(s) < 6000 {
+			if proto.Size(s) < 4000 {
 				rn.jsonCase(s, replay{Kind: "corpus", Path: files[pi], Note: "source contexts dropped"})
 			}
 		}
@@ -1455,6 +1470,8 @@ var regressionSysl = []string{
 	"A [~x]:\n    E1 [~e]:\n        B <- F\n        ...\n    E2:\n        ...\n    .. * <- *:\n        E2 [~q, k=\"v\"]\n        B <- F [~t]\nB:\n    F:\n        ...\n",
 	// mixin chain
 	"A:\n    -|> B\n    !type TA:\n        x <: int\nB [~abstract]:\n    -|> C\n    !type TB:\n        x <: int\nC [~abstract]:\n    !type TC:\n        x <: int\n",
+	// a collector statement whose own array attribute is shared with its target and grows again on re-import
+	"A:\n    E2:\n        ...\n    .. * <- *:\n        E2 [arr=[\"a\"]]\n        E2 [arr=[\"a\", \"b\"]]\n        E2 [arr=\"s\"]\n",
 	// newline, non-ASCII, control bytes in names and values
 	"N%0A%C3%A9%01x [k=\"line\\nbreak \\u00e9 \\t\"]:\n    E:\n        ...\n",
 }
